@@ -1,4 +1,5 @@
 import NmlVerif.Proofs.XmlText
+import NmlVerif.Proofs.IntCodec
 import NmlVerif.Gen.Quote
 /-!
 # C01, text level — escaping and scalar codecs
@@ -25,6 +26,26 @@ theorem gen_format_boolean_eq : NmlVerif.Gen.Quote.gds_format_boolean = fmtBool 
 theorem gen_parse_boolean_eq : NmlVerif.Gen.Quote.gds_parse_boolean = parseBool := by
   funext s
   simp [NmlVerif.Gen.Quote.gds_parse_boolean, parseBool]
+
+/-- `gds_format_float` / `gds_format_double` on the lexical level (the argument is what CPython's `"%.15f"` / `"%s"` give for
+    the value — trusted): today's source is one of the two known shapes, selected by the regenerated flag `nonfiniteXsd`
+    (`false`: inf / -inf / nan as CPython prints them; `true`: the XSD spellings INF / -INF / NaN) -/
+theorem gen_format_float_eq : NmlVerif.Gen.Quote.gds_format_float = fmtFloat NmlVerif.Gen.Quote.nonfiniteXsd := rfl
+theorem gen_format_double_eq : NmlVerif.Gen.Quote.gds_format_double = fmtDouble NmlVerif.Gen.Quote.nonfiniteXsd := rfl
+
+/-- the re-spelling touches the three non-finite spellings only -/
+theorem xsdNonfinite_finite (s : Str) (h1 : s ≠ ['i', 'n', 'f']) (h2 : s ≠ ['-', 'i', 'n', 'f']) (h3 : s ≠ ['n', 'a', 'n']) :
+    xsdNonfinite s = s := by
+  simp [xsdNonfinite, Py.dictGet, List.find?, Ne.symm h1, Ne.symm h2, Ne.symm h3]
+
+theorem xsdNonfinite_values : xsdNonfinite "inf".toList = "INF".toList ∧ xsdNonfinite "-inf".toList = "-INF".toList ∧
+    xsdNonfinite "nan".toList = "NaN".toList ∧ xsdNonfinite "1e-07".toList = "1e-07".toList := by decide
+
+/-- the 15-decimal form: trailing zeros go, one digit stays after the point -/
+theorem fmtFloat_examples :
+    fmtFloat false ⟨[], "0.500000000000000".toList⟩ = "0.5".toList ∧ fmtFloat false ⟨[], "3.000000000000000".toList⟩ = "3.0".toList ∧
+    fmtFloat false ⟨[], "0.000000100000000".toList⟩ = "0.0000001".toList ∧ fmtFloat true ⟨[], "-inf".toList⟩ = "-INF".toList ∧
+    fmtFloat false ⟨[], "nan".toList⟩ = "nan".toList := by decide
 
 /-! ## what the reader gets back -/
 
@@ -87,6 +108,11 @@ theorem c01_text_cdata_witness : ¬ c01_text_roundtrip_full := by
 theorem c01_text_cr_witness : readText (quoteXml "a\rb".toList) = some "a\nb".toList := by decide
 
 /-! ## scalar codecs: booleans and integers exactly; strings are the identity; floats/doubles stay trusted + sampled -/
+
+/-- **integer codec, every integer** (any sign, any size): `gds_parse_integer (gds_format_integer i) = i` -/
+theorem c01_int_roundtrip (i : Int) :
+    NmlVerif.Gen.Quote.gds_parse_integer (NmlVerif.Gen.Quote.gds_format_integer i) = some i := by
+  rw [gen_parse_integer_eq, gen_format_integer_eq]; exact parseInt_fmtInt i
 
 theorem c01_bool_roundtrip (b : Bool) :
     NmlVerif.Gen.Quote.gds_parse_boolean (NmlVerif.Gen.Quote.gds_format_boolean b) = some b := by
